@@ -86,6 +86,8 @@ type confinedRow struct {
 var confinedTable = []confinedRow{
 	{"pkg/twcc.Recorder", nil, "pkg/twcc.(*SenderInterceptor).loop", "the recorder is only touched by the sender interceptor's loop goroutine"},
 	{"pkg/twcc.packetArrivalTimeMap", nil, "pkg/twcc.(*SenderInterceptor).loop", "part of the recorder"},
+	{"pkg/twcc.SenderInterceptor", []string{"recorder"}, "pkg/twcc.(*SenderInterceptor).loop", "the pointer is assigned by the function that starts the loop, before the go statement; only the loop reads it (this is what the setup-time exemption of the field in C4 rests on)"},
+	{"pkg/rfc8888.SenderInterceptor", []string{"recorder"}, "pkg/rfc8888.(*SenderInterceptor).loop", "assigned in the constructor; only the loop reads it"},
 	{"pkg/twcc.feedback", nil, "pkg/twcc.(*SenderInterceptor).loop", "built and consumed inside BuildFeedbackPacket"},
 	{"pkg/twcc.chunk", nil, "pkg/twcc.(*SenderInterceptor).loop", "part of feedback"},
 	{"pkg/rfc8888.Recorder", nil, "pkg/rfc8888.(*SenderInterceptor).loop", "the recorder is only touched by the interceptor's loop goroutine"},
@@ -1038,6 +1040,62 @@ func fieldEverStoredShared(p *Prog, fk string) bool {
 
 // ---- C2: confinement ------------------------------------------------------------------------------------------------
 
+// onlyStoredTo: every use of the field address is a store to it.
+func onlyStoredTo(fa *ssa.FieldAddr) bool {
+	if fa.Referrers() == nil {
+		return false
+	}
+	for _, r := range *fa.Referrers() {
+		switch x := r.(type) {
+		case *ssa.Store:
+			if x.Addr != fa {
+				return false
+			}
+		case *ssa.DebugRef:
+		default:
+			return false
+		}
+	}
+	return true
+}
+
+// startsGoroutine: owner is reachable from fn — through calls, go statements and the closures fn makes (the go
+// statement may sit in a spawn helper that is handed `func() { s.loop(w) }`).
+func startsGoroutine(p *Prog, fn, owner *ssa.Function) bool {
+	seen := map[*ssa.Function]bool{fn: true}
+	work := []*ssa.Function{fn}
+	for len(work) > 0 && len(seen) < 400 {
+		f := work[0]
+		work = work[1:]
+		found := false
+		push := func(c *ssa.Function) {
+			if c == owner {
+				found = true
+			}
+			if c != nil && !seen[c] && p.InUniverse(c) {
+				seen[c] = true
+				work = append(work, c)
+			}
+		}
+		instrsOf(f, func(in ssa.Instruction) {
+			switch x := in.(type) {
+			case ssa.CallInstruction:
+				for _, c := range p.Callees(x) {
+					push(c)
+				}
+			case *ssa.MakeClosure:
+				if c, ok := x.Fn.(*ssa.Function); ok {
+					push(c)
+				}
+			}
+		})
+		if found {
+			return true
+		}
+	}
+	return false
+}
+
 func runC2(p *Prog, o *obls, la *lockAnalysis) {
 	cg := p.CG()
 	for _, row := range confinedTable {
@@ -1057,6 +1115,8 @@ func runC2(p *Prog, o *obls, la *lockAnalysis) {
 			if isOptionClosure(fn) {
 				continue
 			}
+			// the function that starts the owner goroutine may prepare the confined state before the go statement
+			starter := row.fields != nil && startsGoroutine(p, fn, owner)
 			instrsOf(fn, func(in ssa.Instruction) {
 				fa, ok := in.(*ssa.FieldAddr)
 				if !ok || typeKey(fa.X.Type()) != row.typ {
@@ -1075,6 +1135,9 @@ func runC2(p *Prog, o *obls, la *lockAnalysis) {
 					}
 				}
 				if !sharedBase(p, fn, fa.X) {
+					return
+				}
+				if starter && onlyStoredTo(fa) {
 					return
 				}
 				n++
